@@ -82,6 +82,8 @@ def short_worker(ctx, job):
             _json.dump(prog(declared), fh)
         return fsx.run({"roots": [cache], "actors": [fsx.actor(flavour, "S", pf)], "timeout_ms": 30000, "faults": faults}, ctx.dir)
 
+    _raw_run_one = run_one
+    run_one = lambda declared, faults: fsx.confirmed(lambda: _raw_run_one(declared, faults))
     probe = run_one(n, [])
     steps = [s for s in probe["steps"] if s.get("step") is not None]
     wsteps = [(i, s["len"]) for i, s in enumerate(steps) if s["sys"] in ("write", "pwrite64") and "/tmp/.tmp" in (s.get("fd_path") or "") and s["len"] > 1]
